@@ -12,7 +12,9 @@ Cases == {Case(1, 2, a, 3) : a \in [1..2 -> -3..3]}
          \cup {Case(2, 3, a, 8) : a \in Sub([1..6 -> E2], 600)}
          \cup {Case(2, 2, a, 2) : a \in [1..4 -> E2]}
          \cup {Case(1, 4, a, 2) : a \in Sub([1..4 -> E1] \cup [1..4 -> {-2, 1, 2}], 120)}
-         \cup {Case(2, 4, a, 4) : a \in Sub([1..8 -> E1], 150)}
+         \cup {Case(2, 4, a, 4) : a \in Sub([1..8 -> E1], 400)}
+         \cup {Case(1, 4, a, 3) : a \in Sub([1..4 -> -3..3], 400)}
+         \cup {Case(1, 5, a, 2) : a \in Sub([1..5 -> E2], 200)}
          \cup {Case(3, 3, a, 4) : a \in Sub([1..9 -> E1], 150)}
 ASSUME PrintT(<<"cases", Cardinality(Cases)>>)
 ASSUME ndJsonSerialize(IOEnv.OUT, SetToSeq(Cases))
